@@ -70,6 +70,48 @@ def stub_class_sizes(stubs):
     return [(n, v) for n, v, sub in out if not sub]
 
 
+def _traced(a):
+    return a
+
+
+def limit_changed(eng, chk, objs, ds, k1, k2):
+    """per-value types taken at limit k1 (what the store holds), merged by `shrink_traced_types` at limit k2 < k1: the result
+    has no TypedDict with more than k2 keys (none at all at 0) at any depth, still admits every value, and is what the model's
+    `shrink k2 (map (enforce k2))` gives"""
+    from monkeytype.stubs import shrink_traced_types
+    from monkeytype.tracing import CallTrace
+    case = dict(ic.case_json(k1, ds), stub_limit=k2)
+    try:
+        stored = [eng.get_type(o, k1) for o in objs]
+        raws = [tyconv.ty_to_tree(t, eng.tbl) for t in stored]
+        out = shrink_traced_types([CallTrace(_traced, {"a": t}) for t in stored], k2)[0]["a"]
+        out_c = tyconv.canon(tyconv.ty_to_tree(out, eng.tbl))
+    except tyconv.Unrepresentable:
+        return [], []
+    except Exception as e:
+        chk.fail("no-error", dict(case, error=repr(e)[:300]))
+        return [], []
+    chk.evaluations += 1
+    nodes = []
+    td_nodes(out, nodes)
+    for r, o in nodes:
+        if r + o > k2 or r + o == 0:
+            chk.fail("size", dict(case, detail="size: TypedDict with %d keys in a stub type generated at limit %d from traces recorded at limit %d: %r"
+                                  % (r + o, k2, k1, out)))
+            break
+    if k2 == 0 and nodes:
+        chk.fail("zero", dict(case, detail="zero: TypedDict in a stub type generated at limit 0 from traces recorded at limit %d: %r" % (k1, out)))
+    for o_, d in zip(objs, ds):
+        try:
+            if not oracle.conforms(o_, out):
+                chk.fail("member", dict(case, detail="member: %s is not admitted by %r" % (sexp.dumps(d), out)))
+                break
+        except Exception:
+            pass
+    chk.count("limit_changed.k%d_to_k%d" % (k1, k2))
+    return [("stubShrink", str(k2)) + tuple(raws)], [(case, out_c)]
+
+
 def direct(eng, objs, ds, k, t=None):
     from monkeytype.encoding import type_from_json, type_to_json
     from monkeytype.stubs import ReplaceTypedDictsWithStubs
@@ -172,6 +214,7 @@ def run(pid, tier, seed):
             chk.rel("corr.C06.tdOk", ok == "true", dict(cj, lean_tdOk=ok))
         pending.clear()
 
+    pend_limit = []
     for kind, descs in eng.cases(tier, 300 if quick else 4000, 3 if quick else 4, 400 if quick else 6000, n_dicts=900 if quick else 12000):
         r = eng.realise(descs)
         if r is None:
@@ -193,6 +236,11 @@ def run(pid, tier, seed):
             if nt and len(objs) >= 2:
                 for b in trace_stage(eng, objs, k):
                     chk.fail(b.split(":")[0], dict(ic.case_json(k, ds), detail=b))
+            if nt and k in (3, 10):
+                # traces recorded under limit k, the stub generated under a smaller one: `shrink_traced_types` at k2
+                for k2 in ((0, 1, 2) if k == 3 else (0, 2, 3)):
+                    lreqs, lmeta = limit_changed(eng, chk, objs, ds, k, k2)
+                    pend_limit.extend(zip(lreqs, lmeta))
             nodes = []
             td_nodes(t, nodes)
             chk.count("k%d.td_nodes.%d" % (k, min(len(nodes), 3)))
@@ -206,6 +254,12 @@ def run(pid, tier, seed):
         if len(pending) >= 600:
             flush()
     flush()
+
+    for i in range(0, len(pend_limit), 1000):
+        chunk = pend_limit[i:i + 1000]
+        for g, (_, (case, impl)) in zip(eng.drv.ask_many([r for r, _ in chunk]), chunk):
+            mc = tyconv.canon(g)
+            chk.rel("corr.C06.stubShrink", mc == impl, dict(case, impl=sexp.dumps(impl), model=sexp.dumps(mc)))
 
     def search(broken):
         t0 = time.time()
